@@ -128,6 +128,20 @@ def main(tier):
     rep.add_tlc("Group negative control (shared flag): Solo must fail", r2)
     if r2.invariant_violated != "Solo":
         raise MachineryError("negative control of Group.tla did not violate Solo: the hypothesis is vacuous")
+    # (T+A) the same theorem on CONCRETE members: the closed pool of signal-free groups (MC_GroupRun.tla): SoloConcrete (every member ends
+    # exactly as its standalone run ends, under both schedules) and YieldRule (union / intersection of the members' decisions) are TLC
+    # invariants, the pool with the cross-path signals must violate SoloConcrete (negative control), and every terminal state is replayed
+    # into the real CsvPaths with all six methods
+    from checks import mcgroup
+
+    neg = mcgroup.pool("quick", common.seed() + 5, signals=True)
+    for c in neg:
+        c["signals"] = False
+    rneg = mcgroup.tlc_pool(neg)
+    rep.add_tlc("MC_GroupRun negative control (groups WITH cross-path signals declared signal-free): SoloConcrete must fail", rneg)
+    if rneg.invariant_violated != "SoloConcrete":
+        raise MachineryError("negative control of MC_GroupRun did not violate SoloConcrete: the hypothesis is vacuous")
+    mcgroup.run_pool(rep, tier, {"valid", "allValid", "started", "stopped", "matchCount", "scanCount", "returned", "vars", "yielded", "raised"}, PID, signals=False)
     n = 40 if tier == "quick" else 1500
     outs = common.pmap(_work, [(common.seed(), i, tier == "quick") for i in range(n)], initializer=scratch.enter_scratch, chunksize=2)
     traces, scheds, infos = [], [], {}
